@@ -234,6 +234,45 @@ def replay_findings(pid, binary, sc):
     return active
 
 
+STEPS_CFG = """SPECIFICATION SSpec
+CONSTANTS
+  SetAt <- StepSetAt
+  NumSets <- StepNumSets
+  Devs = %(devs)s
+CHECK_DEADLOCK FALSE
+INVARIANTS StepsAccepted StepsNotStuck StepsResultOK
+"""
+
+
+def steps_validate(chk, binary, sc, sets, tag, limit, corrupt=None):
+    """Impl binding of the merger at the level of its decisions: the events the verif hook VerifMergeTrace emitted during one real merge of
+    every file set (which file, type, condition, extension, relation it took next and the branch it went into) are validated by TLC against
+    the Impl state machine of spec/Merge.tla (spec/MergeSteps.tla: every Impl action conjoined with its event). A rejected trace is DRIFT."""
+    todo = [fs for fs in sets.values() if len({f["name"] for f in fs.files}) == len(fs.files)][:limit]      # (the Impl layer keys files by name)
+    inp, out = sc.path(tag + ".steps.in.ndjson"), sc.path("merge_steps.ndjson")
+    write_ndjson(inp, [{"id": fs.id, "files": [{"name": f["name"], "text": f["text"]} for f in fs.files], "abs": [f["abs"] for f in fs.files], "schema": fs.schema} for fs in todo])
+    run_harness(binary, ["merge-steps", "-in", inp, "-out", out])
+    traces = read_ndjson(out)
+    if corrupt:
+        corrupt(traces)       # (bin/selftest)
+        write_ndjson(out, traces)
+    if len(traces) != len(todo) or not any(t["events"] for t in traces):
+        raise Infra("the merger hook recorded %d traces for %d file sets (hook removed or not compiled in?)" % (len(traces), len(todo)))
+    res = run_tlc("MergeSteps", STEPS_CFG % {"devs": DEVS_CURRENT}, sc, data_files={"merge_steps.ndjson": out}, timeout=3000)
+    events = sum(len(t["events"]) for t in traces)
+    if res.violated:
+        bad = traces[res.ints["gi"] - 1] if "gi" in res.ints else None
+        chk.drift.append({"merge_steps": "TLC rejects a recorded decision trace of the merger (%s): %s" % (tag, res.violated), "trace": bad})
+        log("merger steps (%s): %d merges / %d decisions, REJECTED by the Impl state machine (%s) - drift, not a verdict" % (tag, len(traces), events, res.violated))
+        return 0
+    log("merger steps (%s): %d merges / %d logged decisions validated by TLC against the Impl state machine (%d states)" % (tag, len(traces), events, res.distinct))
+    chk.add("merge_step_traces_validated", len(traces))
+    chk.add("merge_decisions_validated", events)
+    chk.cov["states"] = chk.cov.get("states", 0) + res.distinct
+    chk.cov["transitions"] = chk.cov.get("transitions", 0) + res.generated
+    return len(traces)
+
+
 def run_sets(chk, pid, binary, sc, sets, tag, runs, moreruns, permruns, kf):
     inp, out = sc.path(tag + ".in.ndjson"), sc.path(tag + ".out.ndjson")
     write_ndjson(inp, [{"id": fs.id, "files": [{"name": f["name"], "text": f["text"]} for f in fs.files], "schema": fs.schema} for fs in sets.values()])
@@ -251,6 +290,8 @@ def run_sets(chk, pid, binary, sc, sets, tag, runs, moreruns, permruns, kf):
                                   "impl": [[tuple(e) for e in i["errs"]] or i["res"] for i in fs.impl][:3]})
         judge(chk, pid, fs, kf)
         chk.add("real_merges", fs.obs["runs"])
+    if pid in ("C07", "C12"):
+        steps_validate(chk, binary, sc, sets, tag, 4000 if chk.tier == "quick" else 100000)
 
 
 def run(pid, tier):
